@@ -311,7 +311,8 @@ def run(res):
         res.violations.append(dict(what='PIRLS iteration violates the step model: ' + CODES.get(codes.get(i), 'see check_code'), finding=None,
                                    input=meta[i], observed='check_code = %s' % codes.get(i), expected='0'))
     res.extra['tolerances'] = {'per-observation formulas': '1e-6 relative (exact rationals; the code evaluates weights ** -1 in float32)', 'normal-equation backward error': '64 eps cond([WB;E])^2 rounded up to a power of two, clipped below at 2^-27, of the largest row scale (exact dyadics); iterations with 64 eps cond^2 > 2^-12 are not judged (counted)',
-                               'score residual of converged fits': '200 tol + 1e-6 (checked, not proved)', 'closed form fitted values': '1e-6 relative to max|y|'}
+                               'score residual of converged fits': '200 tol + 1e-6 (checked, not proved)', 'closed form fitted values': '1e-6 relative to max|y|',
+                               'lam-spread probe (block gradient of the lightly penalised term)': '1e-5 relative to |B1\' y| (unchanged tree <= 2e-9 on 960 fits)'}
     res.trusted.append('LAPACK contracts (QR, SVD, Cholesky) are section hypotheses of Alg/Solve.v; the backward-error check of coef_new validates their consequence on every captured iteration')
 
 
